@@ -308,7 +308,7 @@ pub fn build() -> Property {
         ],
         phases: vec![Phase {
             name: "fault_schedules",
-            kind: PhaseKind::Gen { cases: (400, 6000), tape_len: 64 + 64 + 2000 + 4 * 4000, f: Box::new(case) },
+            kind: PhaseKind::Gen { cases: (1000, 8000), tape_len: 64 + 64 + 2000 + 4 * 4000, f: Box::new(case) },
             threads: 16,
         }],
     }
